@@ -68,17 +68,35 @@ func removalMutants(base *Program, idPrefix string, max int, r interface{ Intn(i
 		cands = append(cands[:i], cands[i+1:]...)
 	}
 	var out []*RejectCase
-	for ci, c := range cands {
+	// single removals, then pairs of item removals (several types missing at once)
+	type job struct{ cs []cand }
+	var jobs []job
+	for _, c := range cands {
+		jobs = append(jobs, job{[]cand{c}})
+	}
+	for i := 0; i+1 < len(cands) && len(jobs) < 2*max; i++ {
+		j := (i + 1 + r.Intn(len(cands)-1)) % len(cands)
+		if j != i && cands[i].item >= 0 && cands[j].item >= 0 {
+			jobs = append(jobs, job{[]cand{cands[i], cands[j]}})
+		}
+	}
+	for ci, jb := range jobs {
+		c := jb.cs[0]
 		m := base.Clone()
 		m.ID = fmt.Sprintf("%sm%d", idPrefix, ci)
-		if c.item >= 0 {
-			removeItemEverywhere(m, c.item)
-		} else {
-			in := m.Injs[c.inj]
-			if in.Variadic && c.arg == len(in.Params)-1 {
-				in.Variadic = false
+		for _, c := range jb.cs {
+			if c.item >= 0 {
+				removeItemEverywhere(m, c.item)
+			} else {
+				in := m.Injs[c.inj]
+				if in.Variadic && c.arg == len(in.Params)-1 {
+					in.Variadic = false
+				}
+				in.Params = append(in.Params[:c.arg:c.arg], in.Params[c.arg+1:]...)
 			}
-			in.Params = append(in.Params[:c.arg:c.arg], in.Params[c.arg+1:]...)
+		}
+		if len(jb.cs) > 1 {
+			c.desc = "pair:" + jb.cs[0].desc + "+" + jb.cs[1].desc
 		}
 		man := Analyze(m)
 		var names []string
@@ -112,7 +130,7 @@ func removalMutants(base *Program, idPrefix string, max int, r interface{ Intn(i
 		if !okClass {
 			continue
 		}
-		rc := &RejectCase{P: m, Class: "missing", MustName: names, Cell: "remove:" + c.desc + ";" + ProgSig(base), Twin: base.ID}
+		rc := &RejectCase{P: m, Class: "missing", MustNameAll: names, Cell: "remove:" + c.desc + ";" + ProgSig(base), Twin: base.ID}
 		if other {
 			rc.NoClaim = "model reports several problem classes"
 		}
@@ -201,6 +219,80 @@ func nearMissCases() []*RejectCase {
 	return out
 }
 
+// orderedSubsets lists every ordered selection (without repetition) of elems.
+func orderedSubsets(elems []int) [][]int {
+	var out [][]int
+	var rec func(cur []int, used map[int]bool)
+	rec = func(cur []int, used map[int]bool) {
+		out = append(out, append([]int(nil), cur...))
+		for _, x := range elems {
+			if !used[x] {
+				used[x] = true
+				rec(append(cur, x), used)
+				used[x] = false
+			}
+		}
+	}
+	rec(nil, map[int]bool{})
+	return out
+}
+
+// multiMissingCases: every small graph over root R and providers A, B whose parameters are
+// ordered selections of {A, B, L1, L2}, with L1 and L2 both unprovided and both reachable:
+// wire must name both missing types whatever the parameter order.
+func multiMissingCases(e *Env) []*RejectCase {
+	var out []*RejectCase
+	// node ids: 0 R, 1 A, 2 B, 3 L1, 4 L2
+	n := 0
+	for _, rp := range orderedSubsets([]int{1, 2, 3, 4}) {
+		for _, ap := range orderedSubsets([]int{2, 3, 4}) {
+			for _, bp := range orderedSubsets([]int{3, 4}) {
+				params := map[int][]int{0: rp, 1: ap, 2: bp}
+				reach := map[int]bool{}
+				var visit func(u int)
+				visit = func(u int) {
+					if reach[u] {
+						return
+					}
+					reach[u] = true
+					for _, v := range params[u] {
+						visit(v)
+					}
+				}
+				visit(0)
+				if !reach[3] || !reach[4] || !reach[1] || !reach[2] {
+					continue
+				}
+				n++
+				if e.Tier != "thorough" && n%9 != int(e.Seed%9) {
+					continue
+				}
+				b := NewPB(fmt.Sprintf("mm%04d", n), "app")
+				names := []string{"R", "A", "B", "L1", "L2"}
+				tys := make([]*Ty, 5)
+				for i, nm := range names {
+					tys[i] = b.Carrier(0, nm)
+				}
+				var items []*Item
+				for u := 0; u < 3; u++ {
+					var ps []*Ty
+					for _, v := range params[u] {
+						ps = append(ps, tys[v])
+					}
+					f := b.Func(0, "New"+names[u], tys[u], false, false, ps...)
+					f.Stub = true
+					items = append(items, f)
+				}
+				b.Inj("Init", tys[0], false, false, nil, refs(items...)...)
+				cell := fmt.Sprintf("multi-missing/R%v/A%v/B%v", rp, ap, bp)
+				b.P.Note = cell
+				out = append(out, &RejectCase{P: b.P, Class: "missing", MustNameAll: []string{DiagName(b.P, tys[3]), DiagName(b.P, tys[4])}, Cell: cell})
+			}
+		}
+	}
+	return out
+}
+
 // CheckC06 — unsatisfied dependencies are rejected and named.
 func CheckC06(e *Env) int {
 	t0 := time.Now()
@@ -222,6 +314,7 @@ func CheckC06(e *Env) int {
 		cases = append(cases, ms...)
 	}
 	cases = append(cases, nearMissCases()...)
+	cases = append(cases, multiMissingCases(e)...)
 	runRejectCases(e, rep, cases, "c06")
 	return rep.Finish(t0)
 }
@@ -279,10 +372,11 @@ func superfluousMutants(base *Program, idPrefix string, kinds []string) []*Rejec
 			ft := b.Carrier(0, "SuperfluousFld")
 			par := b.NamedOf(0, "SuperfluousParent", StructOf(idField, FieldT{Name: "Fld", Ty: ft}), "parent")
 			ref = ItemRef(b.Fields(par, "Fld").ID)
-		case "set":
+		case "set", "inline-set":
 			f := b.Func(0, "NewSuperfluous", b.Carrier(0, "Superfluous"), false, false)
 			f.Stub = true
 			s := b.Set(0, "SuperfluousSet", ItemRef(f.ID))
+			s.Inline = kind == "inline-set"
 			ref = SetRef(s.ID)
 		}
 		if !ok {
@@ -401,7 +495,7 @@ func indirectUseControls() []*RejectCase {
 func CheckC08(e *Env) int {
 	t0 := time.Now()
 	rep := NewReport(e, "C08", "exploration", "accepted generated programs extended by one superfluous direct item of each kind (function, struct provider, value, interface value, binding, single-field FieldsOf, provider set); oracle: no output, an 'unused' diagnostic; controls: the unextended program and programs whose items are used only indirectly (nested set, pointer form, binding, field selection) must be accepted; distinct = (kind, program shape)")
-	kinds := []string{"func", "struct", "value", "ifacevalue", "bind", "fields", "set"}
+	kinds := []string{"func", "struct", "value", "ifacevalue", "bind", "fields", "set", "inline-set"}
 	var cases []*RejectCase
 	progs := genPool(e, "s", e.tierN(40, 400), func(i int, o *GenOpts) {
 		o.NInj = 1
